@@ -6,7 +6,8 @@ Independent of `Model/SimRouter.lean`'s *logic* (it only shares the data types `
 one pass per AS in the order of the reference implementation of the SCION data plane
 (draft-dekater-scion-dataplane §4.2 / scionproto `router/dataplane.go process()`):
 
-  parse → hop expiry → ingress-interface check → non-cons-dir SegID update → MAC → ingress router alert
+  parse (pointers consistent, segment has ≥ 2 hop fields, a non-final segment end is followed by a hop and an info field;
+  a malformed path is dropped without reply) → hop expiry → ingress-interface check → non-cons-dir SegID update → MAC → ingress router alert
   → local delivery at the last hop (destination must be this AS)
   → crossover (not on a peering hop): segment-change rule, then expiry + MAC of the second hop field
      (NO ingress-interface check on the second hop field, NO SegID update)
@@ -86,6 +87,9 @@ def process (macf : MacF) (localAs dstAs : Nat) (p : Path) (ingressIf now : Nat)
   | some (seg, first, len), some hop, some info =>
     if seg != p.currInf then (p, .drop)                       -- pointers inconsistent
     else if len == 1 then (p, .drop)                           -- a segment needs two hop fields
+    else if p.currHf + 1 == first + len && p.currHf + 1 != p.seg0 + p.seg1 + p.seg2 &&
+            ((p.hops[p.currHf + 1]?).isNone || (p.infos[seg + 1]?).isNone) then
+      (p, .drop)                                               -- segment end without a following segment
     else
     let peering := isPeeringHop p info
     let pktIngress := if info.consDir then hop.consIngress else hop.consEgress
